@@ -157,7 +157,13 @@ fn forwarded(hdr: u8, true_ip: IpAddr, other: IpAddr) -> (String, IpAddr) {
         }
         IpAddr::V6(a) => a.to_string(),
     };
-    let o = other.to_string();
+    // the decoy entries (what a client could have put into the header itself): the scripts' own hosts are all in
+    // 10.0.0.0/8, so without these a tracker that prefers "public" over "private" entries would never be told apart
+    let o = match (hdr / 6) % 3 {
+        0 => other.to_string(),
+        1 => "203.0.113.77".to_string(),
+        _ => "2001:db8:77::1".to_string(),
+    };
     let mut s = String::new();
     match hdr % 6 {
         0 => s.push_str(&format!("{}: {}\r\n", HEADER_NAME, t)),
